@@ -16,7 +16,7 @@ REGISTER = True
 TECHNIQUE = ('Hypothesis property-based testing, differential against reference implementations written from the definitions '
              '(scipy average ranks; consistency from the global alternating flank sequence recomputed from the signal; '
              'per-flank strict step fractions), on tables from generated signals and on synthetic tables with ties, zeros, '
-             'negatives and all three directions')
+             'negatives and all three directions; enumerated tables of several thousand cycles in and out of time order; the burst features of a finished table re-evaluated on another signal')
 LEVEL_TEXT = ('Generated-input search: 800 pipeline cases + 4k synthetic tables + 3k raw monotonicity cases (quick), '
               '30k + 200k + 100k (thorough). Exact (bit-level) comparison; rows whose consistency involves a 0/0 pair are '
               'counted and skipped (the statement leaves them undefined). Sampling, not exhaustive.')
